@@ -45,4 +45,19 @@ PROPS = {
             "clauses are Definitions (…_statement) checked per generated case by spec_ok, not proved",
         ],
     },
+    "C04": {
+        "harness": [{"cmd": "c04", "n": {"quick": 1500, "thorough": 60000}}],
+        "rule": "random gapped alignments (0-5 rows, 0-24 columns) x SubAlign / SelectSites / InverseCoordinates / "
+                "InversePositions / TrimSequences / RefCoordinates / RefSites / Concat (shared and new names, empty "
+                "sides, alphabet mismatch) / SubAlign+Concat re-assembly / AddRange+Split (codon, block and random "
+                "ranges incl. invalid and overlapping) / Transpose (once, twice) / DiffWithFirst (+ReplaceMatchChars), "
+                "integer arguments biased to -1,0,1,L-1,L,L+1; plus every (start,length) in [-1,L+1]^2 and boundary "
+                "site lists on two tiny alignments; non-trivial = alignment has >=1 row and >=2 columns; "
+                "distinct = distinct (op, arguments, input)",
+        "nontrivial": lambda m: len(m.get("seqs", [])) >= 1 and len(m["seqs"][0]) >= 2,
+        "assumptions": [
+            "inputs are rectangular alignments with pairwise distinct names (C01 is about keeping them so)",
+            "fmt %d modelled by Base/Dec.v",
+        ],
+    },
 }
